@@ -96,6 +96,7 @@ def build(name, log=sys.stderr):
     fcntl.flock(lock, fcntl.LOCK_EX)
     try:
         if os.path.exists(os.path.join(d, ".ok")):
+            os.utime(d, None)   # mark as in use
             return d
         # prune stale builds of this world
         # (keep the most recent other build: a seeded-change run against a scratch copy of the repository and a run against
@@ -103,6 +104,8 @@ def build(name, log=sys.stderr):
         olds = [e for e in os.listdir(BUILD) if e.startswith(name + "-") and e != os.path.basename(d) and len(e) == len(name) + 13]
         olds.sort(key=lambda e: os.path.getmtime(os.path.join(BUILD, e)), reverse=True)
         for e in olds[1:]:
+            if time.time() - os.path.getmtime(os.path.join(BUILD, e)) < 5400:
+                continue    # used within the last 90 minutes: a run against another tree may still be executing from it
             shutil.rmtree(os.path.join(BUILD, e), ignore_errors=True)
         shutil.rmtree(d, ignore_errors=True)
         os.makedirs(d)
